@@ -78,7 +78,8 @@ type MdnsManager struct {
 	providerSelection MdnsProviderSelection
 
 	mux,
-	muxAnnounced sync.Mutex
+	muxAnnounced,
+	muxReport sync.Mutex
 }
 
 func shortenString(s string, maxLen int) string {
@@ -555,8 +556,7 @@ func (m *MdnsManager) processMdnsEntry(elements map[string]string, name, host st
 		return
 	}
 
-	entries := m.copyMdnsEntries()
-	go m.report.ReportMdnsEntries(entries, true)
+	m.reportMdnsEntries(true)
 }
 
 func (m *MdnsManager) RequestMdnsEntries() {
@@ -564,6 +564,19 @@ func (m *MdnsManager) RequestMdnsEntries() {
 		return
 	}
 
-	entries := m.copyMdnsEntries()
-	go m.report.ReportMdnsEntries(entries, false)
+	m.reportMdnsEntries(false)
+}
+
+// report the known entries asynchronously
+//
+// the reports are delivered one after the other and each one contains the entries
+// known at the time of its delivery, so the last delivered report always shows the latest state
+func (m *MdnsManager) reportMdnsEntries(newEntries bool) {
+	go func() {
+		m.muxReport.Lock()
+		defer m.muxReport.Unlock()
+
+		entries := m.copyMdnsEntries()
+		m.report.ReportMdnsEntries(entries, newEntries)
+	}()
 }
